@@ -516,14 +516,14 @@ def _explore_job(args):
     return name, mode, out
 
 
-def _two_pass(traces):
+def _two_pass(traces, cfg='Trace_MultiEventX'):
     """TLC: pass 1 without deviations; the rejected ones again with the named deviations allowed.
     returns (list of verdict per trace: None | ('dev', [names]) | ('rej', l), states, transitions)"""
-    verdicts, st, tr = validate_traces('Trace_MultiEventX', traces, 'Trace_MultiEventX.cfg', timeout=1500, chunk=3000)
+    verdicts, st, tr = validate_traces('Trace_MultiEventX', traces, cfg + '.cfg', timeout=1500, chunk=3000)
     res = [None] * len(traces)
     bad = [i for i in range(len(traces)) if verdicts[i] is not None]
     if bad:
-        v2, st2, tr2, extra = validate_traces('Trace_MultiEventX', [traces[i] for i in bad], 'Trace_MultiEventX_dev.cfg',
+        v2, st2, tr2, extra = validate_traces('Trace_MultiEventX', [traces[i] for i in bad], cfg + '_dev.cfg',
                                               timeout=1500, chunk=3000, collect=('DEVS',))
         st += st2
         tr += tr2
@@ -681,6 +681,65 @@ def _coverage(r):
     return cnt
 
 
+# ------------------------------------------------------------------ design model -> contract
+
+MODEL_INIT = {'server': {'e1': 2, 'e2': 2}, 'late': {'e1': 2, 'e2': 2}, 'new': {'e1': 99}, 'queue': {'e1': 99}, 'reuse': {'e1': 99}}
+MODEL_DEVS = {'Dev_IterRace', 'Dev_SpuriousTimeout', 'Dev_TrueBeforeActions', 'Dev_HalfCreated', 'Dev_IsSetInverted'}
+
+
+def _model_trace(beh, init):
+    """a behaviour of MultiEventXCode (events printed by Gen_MultiEventXCode) in the format of the recordings"""
+    tr = [{'ev': 'cfg', 'dto': 99}]
+    for e, d in sorted(init.items()):
+        tr += [_b('main', 0, 'new', e=e, to=d, name=e), _r('main', 0, 'new', ires=d)]
+    inside = {}
+    last = 0
+    for ev in beh:
+        ev = dict(ev)
+        last = ev['vt']
+        if ev['ev'] == 'begin':
+            inside[ev['th']] = True
+        elif ev['ev'] == 'ret':
+            inside.pop(ev['th'], None)
+            ev['sres'] = sorted(ev['sres'])
+            if ev['op'] == 'deadline' and ev['ires'] == 0:
+                ev['ires'] = NODL
+        tr.append(ev)
+    for th in sorted(inside):
+        tr.append({'ev': 'stuck', 'th': th, 'vt': last})
+    tr.append({'ev': 'end', 'vt': last})
+    return tr
+
+
+def model_conformance(chk, scenarios):
+    """behaviours of the line-level model, projected to observable events, judged by the contract"""
+    names = [(m, sc) for sc in scenarios for m in ('fixed', 'asimpl')]
+    outs = run_parallel([lambda m=m, sc=sc: emit_behaviours('Gen_MultiEventXCode', f'Gen_MultiEventXCode_{m}_{sc}.cfg',
+                                                             maximal_only=False, timeout=1400) for m, sc in names], width=4)
+    traces, origin = [], []
+    for (m, sc), (r, behs) in zip(names, outs):
+        chk.add_tlc(r)
+        for b in {json.dumps(_model_trace(b, MODEL_INIT[sc])) for b in behs}:
+            traces.append(json.loads(b))
+            origin.append((m, sc))
+    verdicts, st, trn = _two_pass(traces, 'Trace_MultiEventX_model')
+    chk.states += st
+    chk.transitions += trn
+    seen = {}
+    for (m, sc), tr, v in zip(origin, traces, verdicts):
+        if v is not None and v[0] == 'rej':
+            raise MachineryError(f'the two specifications disagree: a behaviour of MultiEventXCode ({m}, scenario {sc}) is no '
+                                 f'behaviour of MultiEventX, even with the named deviations; event {v[1]} of {json.dumps(tr)}')
+        if v is not None and m == 'fixed':
+            raise MachineryError(f'the repaired design (scenario {sc}) needs the deviations {v[1]}: {json.dumps(tr)}')
+        for d in (v[1] if v else ()):
+            seen[d] = seen.get(d, 0) + 1
+    if not set(seen) <= MODEL_DEVS or not seen:
+        raise MachineryError(f'deviations needed by the model of the code as it stands: {seen}')
+    chk.notes['design_model_behaviours_judged_by_contract'] = len(traces)
+    chk.notes['deviations_needed_by_the_model_of_the_pinned_code'] = seen
+
+
 # ------------------------------------------------------------------ the check
 
 GEN_DTO = {'wait': 3, 'queue': INF, 'names': 2}
@@ -710,7 +769,7 @@ def run(chk):
                 'the deterministic scheduler with line-level preemption (bounded-preemption DFS + random schedules of '
                 'the scenario catalogue, random scripts with random schedules), each recorded execution validated by '
                 'TLC; non-trivial if at least two threads were interleaved')
-    for mod in ('MultiEventX', 'MC_MultiEventX', 'Gen_MultiEventX', 'Trace_MultiEventX', 'MultiEventXCode'):
+    for mod in ('MultiEventX', 'MC_MultiEventX', 'Gen_MultiEventX', 'Trace_MultiEventX', 'MultiEventXCode', 'Gen_MultiEventXCode'):
         sany(mod)
 
     # ---- 1 design level + behaviour emission: independent TLC runs side by side
@@ -750,6 +809,7 @@ def run(chk):
     for gname, (r, b) in zip(gens, out[n_ok + len(must):]):
         chk.add_tlc(r)
         behs += [(x, GEN_DTO[gname]) for x in b]
+    model_conformance(chk, ('server', 'late') if quick else ('server', 'late', 'new', 'queue'))
     stage['tlc'] = round(_t.time() - t0, 1)
 
     # ---- 2 spec -> code
